@@ -76,7 +76,11 @@ Record state := mkS {
   s_upg : list nat;                    (* texts whose Tx-only entry was replaced (upgrade) *)
   s_cuts : nat;                        (* Reset/Close bodies executed *)
   s_stolen : bool;                     (* a delete-by-text removed somebody else's entry *)
-  s_everclosed : bool                  (* a Close body was executed *)
+  s_everclosed : bool;                 (* a Close body was executed *)
+  (* parameter of the model, constant along a run: false = prepare_stmt.go as it is; true = the
+     proposed patch (a delete(Stmts, query) only removes the entry the deleting call created,
+     resp. the entry that carries the statement the deleting call used) *)
+  s_guard : bool
 }.
 
 (* ---- helpers ------------------------------------------------------------------------ *)
@@ -114,22 +118,22 @@ Definition finish (th : thread) (r : result) := mkT Idle (tl (t_ops th)) (t_res 
 (* functional record updates *)
 Definition w_thr (s : state) (l : list thread) :=
   mkS (s_map s) (s_w s) (s_r s) (s_ents s) l (s_nstmt s) (s_prep s) (s_closed s)
-      (s_calls s) (s_fails s) (s_evicts s) (s_upg s) (s_cuts s) (s_stolen s) (s_everclosed s).
+      (s_calls s) (s_fails s) (s_evicts s) (s_upg s) (s_cuts s) (s_stolen s) (s_everclosed s) (s_guard s).
 Definition w_lock (s : state) (w : option nat) (r : nat) :=
   mkS (s_map s) w r (s_ents s) (s_thr s) (s_nstmt s) (s_prep s) (s_closed s)
-      (s_calls s) (s_fails s) (s_evicts s) (s_upg s) (s_cuts s) (s_stolen s) (s_everclosed s).
+      (s_calls s) (s_fails s) (s_evicts s) (s_upg s) (s_cuts s) (s_stolen s) (s_everclosed s) (s_guard s).
 Definition w_map (s : state) (m : option (list (nat * nat))) :=
   mkS m (s_w s) (s_r s) (s_ents s) (s_thr s) (s_nstmt s) (s_prep s) (s_closed s)
-      (s_calls s) (s_fails s) (s_evicts s) (s_upg s) (s_cuts s) (s_stolen s) (s_everclosed s).
+      (s_calls s) (s_fails s) (s_evicts s) (s_upg s) (s_cuts s) (s_stolen s) (s_everclosed s) (s_guard s).
 Definition w_ents (s : state) (l : list entry) :=
   mkS (s_map s) (s_w s) (s_r s) l (s_thr s) (s_nstmt s) (s_prep s) (s_closed s)
-      (s_calls s) (s_fails s) (s_evicts s) (s_upg s) (s_cuts s) (s_stolen s) (s_everclosed s).
+      (s_calls s) (s_fails s) (s_evicts s) (s_upg s) (s_cuts s) (s_stolen s) (s_everclosed s) (s_guard s).
 Definition w_drv (s : state) (n : nat) (p : list (nat * nat * bool)) (c : list nat) :=
   mkS (s_map s) (s_w s) (s_r s) (s_ents s) (s_thr s) n p c
-      (s_calls s) (s_fails s) (s_evicts s) (s_upg s) (s_cuts s) (s_stolen s) (s_everclosed s).
+      (s_calls s) (s_fails s) (s_evicts s) (s_upg s) (s_cuts s) (s_stolen s) (s_everclosed s) (s_guard s).
 Definition w_ghost (s : state) calls fails evicts upg cuts stolen everclosed :=
   mkS (s_map s) (s_w s) (s_r s) (s_ents s) (s_thr s) (s_nstmt s) (s_prep s) (s_closed s)
-      calls fails evicts upg cuts stolen everclosed.
+      calls fails evicts upg cuts stolen everclosed (s_guard s).
 
 Definition set_thr (s : state) (t : nat) (th : thread) := w_thr s (upd (s_thr s) t th).
 Definition spawn (s : state) (l : list thread) := w_thr s (s_thr s ++ l).
@@ -282,11 +286,16 @@ Definition a_P11b (e : nat) : act := fun s t th c =>
   let q := cur_q th in
   if is_tau c then
     let s1 := w_lock s None (s_r s) in
-    let theft := match mlookup (s_map s) q with Some e' => negb (e' =? e) | None => false end in
-    let s2 := w_map s1 (option_map (remove_key q) (s_map s)) in
-    let s3 := w_ghost s2 (s_calls s) (s_fails s) (s_evicts s) (s_upg s)
-                      (s_cuts s) (s_stolen s || theft) (s_everclosed s) in
-    Some (set_thr s3 t (set_pc th (P11c e)), None)
+    let del := w_map s1 (option_map (remove_key q) (s_map s)) in
+    match mlookup (s_map s) q with
+    | Some e' =>
+      if e' =? e then goto del t th (P11c e)                 (* the slot still holds my entry *)
+      else if s_guard s then goto s1 t th (P11c e)           (* patched code: leave it alone *)
+      else goto (w_ghost del (s_calls s) (s_fails s) (s_evicts s) (s_upg s)
+                         (s_cuts s) true (s_everclosed s)) t th (P11c e)
+                                                             (* somebody else's entry is deleted *)
+    | None => goto del t th (P11c e)
+    end
     else None.
 
 Definition a_P11c (e : nat) : act := fun s t th c =>
@@ -328,14 +337,18 @@ Definition a_X2b (st : nat) : act := fun s t th c =>
   let q := cur_q th in
   if is_tau c then
     let s1 := w_lock s None (s_r s) in
-    let theft := match mlookup (s_map s) q with
-                 | Some e' => negb (option_eqb Nat.eqb (e_stmt (ent s e')) (Some st))
-                 | None => false end in
-    let s2 := w_map s1 (option_map (remove_key q) (s_map s)) in
-    let s3 := w_ghost s2 (s_calls s) (s_fails s) (s_evicts s ++ [q]) (s_upg s)
-                      (s_cuts s) (s_stolen s || theft) (s_everclosed s) in
-    let s4 := spawn (set_thr s3 t (set_pc th (Ret RErrBad))) [mkT (D0 st) [] []] in
-    Some (s4, None)
+    let ev stolen := w_ghost s1 (s_calls s) (s_fails s) (s_evicts s ++ [q]) (s_upg s)
+                             (s_cuts s) stolen (s_everclosed s) in
+    let del s0 := w_map s0 (option_map (remove_key q) (s_map s)) in
+    let fin s0 := Some (spawn (set_thr s0 t (set_pc th (Ret RErrBad))) [mkT (D0 st) [] []], None) in
+    match mlookup (s_map s) q with
+    | Some e' =>
+      if option_eqb Nat.eqb (e_stmt (ent s e')) (Some st) then fin (del (ev (s_stolen s)))
+                                                             (* the slot holds the statement I used *)
+      else if s_guard s then fin (ev (s_stolen s))           (* patched code: leave it alone *)
+      else fin (del (ev true))                               (* somebody else's entry is deleted *)
+    | None => fin (del (ev (s_stolen s)))
+    end
     else None.
 
 (* Reset: Lock; closer per entry; Stmts = make(map); Unlock *)
@@ -436,8 +449,10 @@ Fixpoint run (s : state) (sched : list (nat * choice)) : option state :=
   | (t, c) :: r => match step s t c with Some s' => run s' r | None => None end
   end.
 
-Definition init (progs : list (list op)) : state :=
-  mkS (Some []) None 0 [] (map (fun p => mkT Idle p []) progs) 0 [] [] [] [] [] [] 0 false false.
+Definition init_g (g : bool) (progs : list (list op)) : state :=
+  mkS (Some []) None 0 [] (map (fun p => mkT Idle p []) progs) 0 [] [] [] [] [] [] 0 false false g.
+(* the code as it is *)
+Definition init (progs : list (list op)) : state := init_g false progs.
 
 Definition thread_done (th : thread) : bool :=
   match t_pc th, t_ops th with Idle, [] => true | _, _ => false end.
